@@ -95,6 +95,11 @@ class Ctx:
         self.npint = bool(case.get("npint_args"))
         if self.npint:
             self.case_features["npint_args"] = True
+        # ... and in a `strided_args` case every ndarray handed to pyttb (bare or inside a list / tuple) is a strided, non-contiguous
+        # view with the same values: what an array means does not depend on how its buffer is laid out
+        self.strided = bool(case.get("strided_args"))
+        if self.strided:
+            self.case_features["strided_args"] = True
 
     def feat(self, **kw):
         self.case_features.update(kw)
@@ -155,6 +160,9 @@ class Ctx:
         if getattr(self, "npint", False):
             args = tuple(_npintify(a) for a in args)
             kw = {k: _npintify(v) for k, v in kw.items()}
+        if getattr(self, "strided", False):
+            args = tuple(_stridify(a) for a in args)
+            kw = {k: _stridify(v) for k, v in kw.items()}
         try:
             value = fn(*args, **kw)
             out = Outcome(True, value)
@@ -218,6 +226,21 @@ class Ctx:
         for p in probs:
             self.fail(op, "ILLFORMED:" + _illformed_class(p), p, **features)
         return not probs
+
+
+def _stridify(x, depth=0):
+    if depth > 2:
+        return x
+    if isinstance(x, np.ndarray) and x.ndim >= 1 and x.size > 0 and x.dtype.kind in "fiub":
+        big = np.zeros(tuple(2 * s for s in x.shape), dtype=x.dtype)
+        view = big[tuple(slice(1, None, 2) for _ in x.shape)]
+        view[...] = x
+        return view
+    if isinstance(x, tuple):
+        return tuple(_stridify(v, depth + 1) for v in x)
+    if isinstance(x, list):
+        return [_stridify(v, depth + 1) for v in x]
+    return x
 
 
 def _npintify(x, depth=0):
